@@ -10,6 +10,12 @@
   steps is at most `budget` long, and when nothing is enabled any more the environment is
   in ERROR (fairness = enabled internal steps are eventually taken; wall-clock time is not
   modelled).
+
+  Two configurations of the watcher (`Failure.Cfg`): `codeCfg` — the code as it is, with
+  "fix: the workflow state watcher cannot miss an ERROR" (channel with a buffer of one, root
+  state re-read after every receive) — and `legacyCfg`, the code before it (finding
+  notify_dropped). `C03_watcher_is_code` ties `codeCfg` to the source: it breaks when the
+  repair is reverted.
 -/
 import ControlModel.Gen.FailureFacts
 import ControlModel.Proofs.Failure
@@ -49,12 +55,16 @@ theorem C03_internal_effect_is_code (st : St) :
     (effect .INTERNAL st).su = none ∧ Gen.C03.internalLooksAtCritical = false := by
   cases st <;> decide
 
-/-- `notify`, `updState`'s critical filter and `Watch` ARE the shapes found in
-    parentadapter.go, taskrole.go and subscribeToWfState. -/
+/-- `notify`, `updState`'s critical filter, `Watch` and `codeCfg` ARE the shapes found in
+    parentadapter.go, taskrole.go and subscribeToWfState: non-blocking send, critical-only
+    forwarding, one-shot watcher, 500 ms, forced ERROR — and the watcher's channel has a
+    buffer of exactly one value and the root's state is re-read after a receive, before the
+    value is acted upon (`codeCfg`; reverting the repair makes this theorem false). -/
 theorem C03_watcher_is_code :
     Gen.C03.notifyNonBlocking = true ∧ Gen.C03.forwardIffCritical = true ∧ Gen.C03.watcherOnError = true ∧
     Gen.C03.watcherOneShot = true ∧ Gen.C03.watcherLeavesOnDone = true ∧ Gen.C03.forcedError = true ∧
-    Gen.C03.timerMs = 500 := by
+    Gen.C03.timerMs = 500 ∧
+    Gen.C03.notifyChanCap = (if codeCfg.buffered then 1 else 0) ∧ Gen.C03.watcherRereadsRoot = codeCfg.reread := by
   decide
 
 /-! ## hypotheses -/
@@ -62,97 +72,61 @@ theorem C03_watcher_is_code :
 /-- Whatever holds the transition mutex is not RECOVER (the API cannot request it). -/
 def NoRecover (s : Sys) : Prop := ∀ i, s.inflight = some i → i.ev ≠ .RECOVER
 
-/-- A live environment: CONFIGURED or RUNNING, its watcher in its loop. -/
+/-- A live environment: CONFIGURED or RUNNING, its watcher in its loop (whatever is waiting
+    in the watcher's channel). -/
 def Live (s : Sys) : Prop :=
   (s.env.st = .CONFIGURED ∨ s.env.st = .RUNNING) ∧ s.w = .parked ∧ NoRecover s
 
-/-- Invariant after the ERROR notification was taken: the timer is pending or has irun. -/
+/-- Invariant after the ERROR notification was taken: the timer is pending or has run. -/
 def ErrInv (s : Sys) : Prop := (s.w = .armed ∨ s.env.st = .ERROR) ∧ NoRecover s
 
-theorem step_inv (s : Sys) (l : Label) (h : ErrInv s) (he : enabled s l = true) : ErrInv (istep s l) := by
-  obtain ⟨hw, hnr⟩ := h
+theorem step_norecover (c : Cfg) (s : Sys) (l : Label) (hnr : NoRecover s) : NoRecover (istep c s l) := by
   cases l with
   | arrive =>
-    simp only [enabled] at he
     cases hi : s.inflight with
-    | none => rw [hi] at he; cases he
+    | none => simp only [istep, hi]; exact hnr
     | some i =>
       cases hp : i.pending with
-      | nil => rw [hi] at he; simp [hp] at he
+      | nil => simp only [istep, hi, hp]; exact hnr
       | cons pv rest =>
         simp only [istep, hi, hp]
-        refine ⟨hw, ?_⟩
         intro j hj
         cases hj
         exact hnr i hi
   | apply k ready =>
     simp only [istep]
     cases hk : s.updq[k]? with
-    | none => exact ⟨hw, hnr⟩
+    | none => exact hnr
     | some pv =>
       obtain ⟨p, v⟩ := pv
       simp only
-      obtain ⟨f1, f2, _, _, _, _⟩ := setLeaf_frame { s with updq := s.updq.eraseIdx k } p v ready
-      refine ⟨?_, ?_⟩
-      · rcases hw with hw | hw
-        · left
-          rw [setLeaf_w_not_parked _ _ _ _ (by simp [hw])]; exact hw
-        · right; rw [f1]; exact hw
-      · intro j hj
-        rw [f2] at hj
-        exact hnr j hj
+      intro j hj
+      rw [(setLeaf_frame c { s with updq := s.updq.eraseIdx k } p v ready).2.1] at hj
+      exact hnr j hj
   | finish =>
-    simp only [enabled] at he
     cases hi : s.inflight with
-    | none => rw [hi] at he; cases he
-    | some i =>
-      simp only [istep, hi]
-      refine ⟨?_, ?_⟩
-      · rcases hw with hw | hw
-        · left; exact hw
-        · right
-          have hne := hnr i hi
-          simp only
-          split
-          · exact control_from_error _ _ _ _ _ hw hne
-          · rw [try_from_error _ _ _ _ _ hw hne]; exact hw
-      · intro j hj; cases hj
+    | none => simp only [istep, hi]; exact hnr
+    | some i => simp only [istep, hi]; intro j hj; cases hj
   | devStop ok ready =>
-    obtain ⟨e1, e2, _, _, e5, _⟩ := devStopStep_frame s ok ready
     simp only [istep]
-    refine ⟨?_, ?_⟩
-    · rcases hw with hw | hw
-      · left; rw [e5 (by simp [hw])]; exact hw
-      · right; rw [e1, try_from_error _ _ _ _ _ hw (by decide)]; exact hw
-    · intro j hj; rw [e2] at hj; exact hnr j hj
+    intro j hj; rw [(devStopStep_frame c s ok ready).2.1] at hj; exact hnr j hj
   | timer =>
-    obtain ⟨t1, _, t3, _⟩ := timerStep_spec s
     simp only [istep]
-    exact ⟨Or.inr t1, fun j hj => by rw [t3] at hj; exact hnr j hj⟩
+    intro j hj; rw [(timerStep_spec c s).2.2.1] at hj; exact hnr j hj
+  | take =>
+    simp only [istep]
+    split
+    · exact hnr
+    · exact hnr
+  | look =>
+    simp only [istep]
+    split
+    · intro j hj; rw [(react_frame c s _).2.2.1] at hj; exact hnr j hj
+    · exact hnr
 
-theorem run_inv (s : Sys) (ls : List Label) (h : ErrInv s) (hv : validRun s ls = true) : ErrInv (irun s ls) := by
-  induction ls generalizing s with
-  | nil => exact h
-  | cons l ls ih =>
-    simp only [validRun, Bool.and_eq_true] at hv
-    exact ih (istep s l) (step_inv s l h hv.1) hv.2
-
-theorem quiescent_inv_error (s : Sys) (h : ErrInv s) (hq : quiescent s = true) : s.env.st = .ERROR := by
-  obtain ⟨hw, _⟩ := h
-  simp only [quiescent, enabled, Bool.and_eq_true, Bool.not_eq_true'] at hq
-  obtain ⟨⟨⟨⟨h1, _⟩, h2⟩, _⟩, h4⟩ := hq
-  cases hi : s.inflight with
-  | some i =>
-    rw [hi] at h1 h2
-    simp only at h1 h2
-    cases hp : i.pending <;> simp [hp] at h1 h2
-  | none =>
-    rw [hi] at h4
-    rcases hw with hw | hw
-    · simp [hw] at h4
-    · exact hw
-
-theorem step_measure (s : Sys) (l : Label) (he : enabled s l = true) : budget (istep s l) < budget s := by
+theorem step_inv (c : Cfg) (s : Sys) (l : Label) (h : ErrInv s) (he : enabled s l = true) : ErrInv (istep c s l) := by
+  obtain ⟨hw, hnr⟩ := h
+  refine ⟨?_, step_norecover c s l hnr⟩
   cases l with
   | arrive =>
     simp only [enabled] at he
@@ -163,7 +137,102 @@ theorem step_measure (s : Sys) (l : Label) (he : enabled s l = true) : budget (i
       | nil => rw [hi] at he; simp [hp] at he
       | cons pv rest =>
         simp only [istep, hi, hp]
-        unfold budget
+        exact hw
+  | apply k ready =>
+    simp only [istep]
+    cases hk : s.updq[k]? with
+    | none => exact hw
+    | some pv =>
+      obtain ⟨p, v⟩ := pv
+      simp only
+      obtain ⟨f1, _, _, _, _, _⟩ := setLeaf_frame c { s with updq := s.updq.eraseIdx k } p v ready
+      rcases hw with hw | hw
+      · left
+        rw [setLeaf_w_not_parked _ _ _ _ _ (by simp [hw])]; exact hw
+      · right; rw [f1]; exact hw
+  | finish =>
+    simp only [enabled] at he
+    cases hi : s.inflight with
+    | none => rw [hi] at he; cases he
+    | some i =>
+      simp only [istep, hi]
+      rcases hw with hw | hw
+      · left; exact hw
+      · right
+        have hne := hnr i hi
+        split
+        · exact control_from_error _ _ _ _ _ hw hne
+        · rw [try_from_error _ _ _ _ _ hw hne]; exact hw
+  | devStop ok ready =>
+    obtain ⟨e1, _, _, _, e5, _⟩ := devStopStep_frame c s ok ready
+    simp only [istep]
+    rcases hw with hw | hw
+    · left; rw [e5 (by simp [hw])]; exact hw
+    · right; rw [e1, try_from_error _ _ _ _ _ hw (by decide)]; exact hw
+  | timer =>
+    simp only [istep]
+    exact Or.inr (timerStep_spec c s).1
+  | take =>
+    rcases hw with hw | hw
+    · simp [enabled, hw] at he
+    · right
+      simp only [istep]
+      split
+      · exact hw
+      · exact hw
+  | look =>
+    rcases hw with hw | hw
+    · simp [enabled, hw] at he
+    · right
+      simp only [istep]
+      split
+      · rw [(react_frame c s _).1]; exact hw
+      · exact hw
+
+theorem run_inv (c : Cfg) (s : Sys) (ls : List Label) (h : ErrInv s) (hv : validRun c s ls = true) :
+    ErrInv (irun c s ls) := by
+  induction ls generalizing s with
+  | nil => exact h
+  | cons l ls ih =>
+    simp only [validRun, Bool.and_eq_true] at hv
+    exact ih (istep c s l) (step_inv c s l h hv.1) hv.2
+
+/-- Nothing enabled, nothing in flight. -/
+theorem quiescent_idle (s : Sys) (hq : quiescent s = true) : s.inflight = none := by
+  simp only [quiescent, enabled, Bool.and_eq_true, Bool.not_eq_true'] at hq
+  obtain ⟨⟨⟨⟨⟨⟨h1, _⟩, h2⟩, _⟩, _⟩, _⟩, _⟩ := hq
+  cases hi : s.inflight with
+  | some i =>
+    rw [hi] at h1 h2
+    simp only at h1 h2
+    cases hp : i.pending <;> simp [hp] at h1 h2
+  | none => rfl
+
+theorem quiescent_inv_error (s : Sys) (h : ErrInv s) (hq : quiescent s = true) : s.env.st = .ERROR := by
+  obtain ⟨hw, _⟩ := h
+  have hi := quiescent_idle s hq
+  simp only [quiescent, enabled, Bool.and_eq_true, Bool.not_eq_true'] at hq
+  obtain ⟨⟨⟨_, h4⟩, _⟩, _⟩ := hq
+  rw [hi] at h4
+  rcases hw with hw | hw
+  · simp [hw] at h4
+  · exact hw
+
+theorem chanWeight_le (s : Sys) : chanWeight s ≤ 2 := by
+  unfold chanWeight; split <;> omega
+
+theorem step_measure (c : Cfg) (s : Sys) (l : Label) (he : enabled s l = true) : budget (istep c s l) < budget s := by
+  cases l with
+  | arrive =>
+    simp only [enabled] at he
+    cases hi : s.inflight with
+    | none => rw [hi] at he; cases he
+    | some i =>
+      cases hp : i.pending with
+      | nil => rw [hi] at he; simp [hp] at he
+      | cons pv rest =>
+        simp only [istep, hi, hp]
+        unfold budget chanWeight
         simp only [hi, hp, List.length_cons, List.length_append, List.length_nil]
         omega
   | apply k ready =>
@@ -172,8 +241,9 @@ theorem step_measure (s : Sys) (l : Label) (he : enabled s l = true) : budget (i
     have hk : s.updq[k]? = some s.updq[k] := List.getElem?_eq_getElem he
     rw [hk]
     simp only
-    obtain ⟨_, f2, f3, _, _, f6⟩ := setLeaf_frame { s with updq := s.updq.eraseIdx k } s.updq[k].1 s.updq[k].2 ready
-    have hwle := setLeaf_weight_le { s with updq := s.updq.eraseIdx k } s.updq[k].1 s.updq[k].2 ready
+    obtain ⟨_, f2, f3, _, _, f6⟩ := setLeaf_frame c { s with updq := s.updq.eraseIdx k } s.updq[k].1 s.updq[k].2 ready
+    have hwle := setLeaf_weight_le c { s with updq := s.updq.eraseIdx k } s.updq[k].1 s.updq[k].2 ready
+    have hc := chanWeight_le (setLeaf c { s with updq := s.updq.eraseIdx k } s.updq[k].1 s.updq[k].2 ready)
     unfold budget
     rw [f2, f3, f6]
     simp only [List.length_eraseIdx, he, if_true]
@@ -185,12 +255,13 @@ theorem step_measure (s : Sys) (l : Label) (he : enabled s l = true) : budget (i
     | none => rw [hi] at he; cases he
     | some i =>
       simp only [istep, hi]
-      unfold budget
+      unfold budget chanWeight
       simp only [hi]
       omega
   | devStop ok ready =>
     simp only [enabled, Bool.and_eq_true, decide_eq_true_eq] at he
-    obtain ⟨_, e2, e3, e4, _, e6⟩ := devStopStep_frame s ok ready
+    obtain ⟨_, e2, e3, e4, _, e6⟩ := devStopStep_frame c s ok ready
+    have hc := chanWeight_le (devStopStep c s ok ready)
     simp only [istep]
     unfold budget
     rw [e2, e3, e6]
@@ -203,25 +274,49 @@ theorem step_measure (s : Sys) (l : Label) (he : enabled s l = true) : budget (i
     omega
   | timer =>
     simp only [enabled, Bool.and_eq_true, decide_eq_true_eq] at he
-    obtain ⟨_, t2, t3, t4, t5⟩ := timerStep_spec s
+    obtain ⟨_, t2, t3, t4, t5, t6⟩ := timerStep_spec c s
     simp only [istep]
-    unfold budget
-    rw [t2, t3, t4, t5, he.2]
+    unfold budget chanWeight
+    rw [t2, t3, t4, t5, t6, he.2]
     have : s.inflight = none := by
       cases hi : s.inflight with
       | none => rfl
       | some i => rw [hi] at he; simp at he
     rw [this]
     simp [Watch.weight]
+  | take =>
+    simp only [enabled, Bool.and_eq_true, decide_eq_true_eq] at he
+    obtain ⟨hw, hc⟩ := he
+    cases hch : s.chan with
+    | none => simp [hch] at hc
+    | some v =>
+      simp only [istep, hw, hch]
+      unfold budget chanWeight
+      simp only [hw, hch, Watch.weight, Option.isSome_some, Option.isSome_none, if_true]
+      simp
+  | look =>
+    cases hw : s.w with
+    | holding v =>
+      simp only [istep, hw]
+      obtain ⟨_, _, r3, r4, _, _, _, r8, r9, _⟩ := react_frame c s v
+      have hwt := react_weight c s v
+      unfold budget chanWeight
+      rw [r3, r4, r8, r9, hw]
+      have h3 : (Watch.holding v).weight = 3 := rfl
+      rw [h3]
+      omega
+    | parked => simp [enabled, hw] at he
+    | armed => simp [enabled, hw] at he
+    | gone => simp [enabled, hw] at he
 
-theorem run_length (s : Sys) (ls : List Label) (hv : validRun s ls = true) :
-    ls.length + budget (irun s ls) ≤ budget s := by
+theorem run_length (c : Cfg) (s : Sys) (ls : List Label) (hv : validRun c s ls = true) :
+    ls.length + budget (irun c s ls) ≤ budget s := by
   induction ls generalizing s with
   | nil => simp [irun]
   | cons l ls ih =>
     simp only [validRun, Bool.and_eq_true] at hv
-    have h1 := step_measure s l hv.1
-    have h2 := ih (istep s l) hv.2
+    have h1 := step_measure c s l hv.1
+    have h2 := ih (istep c s l) hv.2
     simp only [irun, List.foldl_cons, List.length_cons] at h2 ⊢
     omega
 
@@ -237,26 +332,30 @@ theorem not_quiescent_enabled (s : Sys) (h : quiescent s = false) : ∃ l, enabl
   · exact ⟨_, h3⟩
   by_cases h4 : enabled s .timer = true
   · exact ⟨_, h4⟩
+  by_cases h5 : enabled s .take = true
+  · exact ⟨_, h5⟩
+  by_cases h6 : enabled s .look = true
+  · exact ⟨_, h6⟩
   simp_all
 
 /-- From every state some run of enabled internal steps reaches quiescence. -/
-theorem exists_maximal_run (n : Nat) (s : Sys) (hn : budget s ≤ n) :
-    ∃ ls, validRun s ls = true ∧ quiescent (irun s ls) = true := by
+theorem exists_maximal_run (c : Cfg) (n : Nat) (s : Sys) (hn : budget s ≤ n) :
+    ∃ ls, validRun c s ls = true ∧ quiescent (irun c s ls) = true := by
   induction n generalizing s with
   | zero =>
     cases hq : quiescent s with
     | true => exact ⟨[], rfl, hq⟩
     | false =>
       obtain ⟨l, hl⟩ := not_quiescent_enabled s hq
-      have := step_measure s l hl
+      have := step_measure c s l hl
       omega
   | succ n ih =>
     cases hq : quiescent s with
     | true => exact ⟨[], rfl, hq⟩
     | false =>
       obtain ⟨l, hl⟩ := not_quiescent_enabled s hq
-      have hm := step_measure s l hl
-      obtain ⟨ls, hv, hqq⟩ := ih (istep s l) (by omega)
+      have hm := step_measure c s l hl
+      obtain ⟨ls, hv, hqq⟩ := ih (istep c s l) (by omega)
       exact ⟨l :: ls, by simp [validRun, hl, hv], by simpa [irun] using hqq⟩
 
 /-! ## the ERROR notification -/
@@ -264,13 +363,13 @@ theorem exists_maximal_run (n : Nat) (s : Sys) (hn : budget s ≤ n) :
 theorem drives_effect (k : Kind) (st : St) (h : k.drives st = true) : (effect k st).st = some .ERROR := by
   simpa [Kind.drives] using h
 
-/-- With the watcher at its receive, the failure of a critical task arms the watcher. -/
-theorem failOne_arms (s : Sys) (k : Kind) (p : List Nat) (hw : s.w = .parked)
+/-- Unbuffered channel, watcher at its receive: the failure of a critical task arms the watcher. -/
+theorem failOne_arms (c : Cfg) (hb : c.buffered = false) (s : Sys) (k : Kind) (p : List Nat) (hw : s.w = .parked)
     (hcrit : critLeafAt s.f p = true) (hk : k.drives s.env.st = true) :
-    (failOne k s p true).w = .armed := by
+    (failOne c k s p true).w = .armed := by
   unfold failOne
   simp only [drives_effect k _ hk, updState_crit_error s.f p hcrit]
-  exact notify_error_ready _ hw
+  exact notify_error_ready c _ hb hw
 
 /-- …and the root of the role tree says ERROR (C11's fold: ERROR of a critical leaf dominates). -/
 theorem C03_root_error (f : Forest) (p : List Nat) (hc : Consistent f) (hcrit : critLeafAt f p = true) :
@@ -284,28 +383,40 @@ theorem C03_root_error (f : Forest) (p : List Nat) (hc : Consistent f) (hcrit : 
 
 /-! ## several tasks at once (executor / agent lost) -/
 
-theorem fail_frame (k : Kind) (s : Sys) (vs : List (List Nat × Bool)) :
-    (fail k s vs).env = s.env ∧ (fail k s vs).inflight = s.inflight ∧ (fail k s vs).hooks = s.hooks ∧
-    (fail k s vs).stopReq ≤ s.stopReq + vs.length ∧ (fail k s vs).updq = s.updq := by
+theorem fail_frame (c : Cfg) (k : Kind) (s : Sys) (vs : List (List Nat × Bool)) :
+    (fail c k s vs).env = s.env ∧ (fail c k s vs).inflight = s.inflight ∧ (fail c k s vs).hooks = s.hooks ∧
+    (fail c k s vs).stopReq ≤ s.stopReq + vs.length ∧ (fail c k s vs).updq = s.updq ∧
+    (fail c k s vs).w.weight ≤ s.w.weight := by
   induction vs generalizing s with
-  | nil => exact ⟨rfl, rfl, rfl, Nat.le_refl _, rfl⟩
+  | nil => exact ⟨rfl, rfl, rfl, Nat.le_refl _, rfl, Nat.le_refl _⟩
   | cons v vs ih =>
     obtain ⟨q, r⟩ := v
     simp only [fail]
-    obtain ⟨a1, a2, a3, a4, a5⟩ := ih (failOne k s q r)
-    obtain ⟨b1, b2, b3, b4, b5⟩ := failOne_frame k s q r
-    refine ⟨a1.trans b1, a2.trans b2, a3.trans b3, ?_, a5.trans b5⟩
+    obtain ⟨a1, a2, a3, a4, a5, a6⟩ := ih (failOne c k s q r)
+    obtain ⟨b1, b2, b3, b4, b5⟩ := failOne_frame c k s q r
+    refine ⟨a1.trans b1, a2.trans b2, a3.trans b3, ?_, a5.trans b5, Nat.le_trans a6 (failOne_weight_le c k s q r)⟩
     rw [b4] at a4
     simp only [List.length_cons]
     split at a4 <;> omega
 
-/-- One failure hitting any number of tasks arms the watcher as soon as ONE of them is
-    critical and its notification finds the watcher at its receive — whatever happens to
-    the notifications of the others (dropped, or sent after the watcher has left its loop). -/
-theorem fail_arms (k : Kind) (s : Sys) (vs : List (List Nat × Bool))
+/-- The failure itself costs at most 3 further internal steps per victim (its queued STOP
+    request and what that can put into the watcher's channel) + 2 (take, look). -/
+theorem fail_budget (c : Cfg) (k : Kind) (s : Sys) (vs : List (List Nat × Bool)) :
+    budget (fail c k s vs) ≤ budget s + 3 * vs.length + 2 := by
+  obtain ⟨_, fi, _, fs, fu, fw⟩ := fail_frame c k s vs
+  have := chanWeight_le (fail c k s vs)
+  unfold budget
+  rw [fi, fu]
+  omega
+
+/-- One failure hitting any number of tasks arms the watcher (unbuffered channel) as soon as
+    ONE of them is critical and its notification finds the watcher at its receive — whatever
+    happens to the notifications of the others (dropped, or sent after the watcher has left
+    its loop). -/
+theorem fail_arms (c : Cfg) (hb : c.buffered = false) (k : Kind) (s : Sys) (vs : List (List Nat × Bool))
     (hw : s.w = .parked ∨ s.w = .armed) (hk : k.drives s.env.st = true)
     (h : s.w = .armed ∨ ∃ p, (p, true) ∈ vs ∧ critLeafAt s.f p = true) :
-    (fail k s vs).w = .armed := by
+    (fail c k s vs).w = .armed := by
   induction vs generalizing s with
   | nil =>
     rcases h with h | ⟨p, hp, _⟩
@@ -314,89 +425,292 @@ theorem fail_arms (k : Kind) (s : Sys) (vs : List (List Nat × Bool))
   | cons v vs ih =>
     obtain ⟨q, r⟩ := v
     simp only [fail]
-    have henv : (failOne k s q r).env = s.env := (failOne_frame k s q r).1
-    have hk' : k.drives (failOne k s q r).env.st = true := by rw [henv]; exact hk
-    obtain ⟨w1, w2⟩ := failOne_w k s q r hk
+    have henv : (failOne c k s q r).env = s.env := (failOne_frame c k s q r).1
+    have hk' : k.drives (failOne c k s q r).env.st = true := by rw [henv]; exact hk
+    obtain ⟨w1, w2⟩ := failOne_w c k s q r hb hk
     rcases hw with hw | hw
     · -- parked
       rcases h with h | ⟨p, hp, hc⟩
       · rw [hw] at h; cases h
       · rcases List.mem_cons.mp hp with heq | hin
         · cases heq
-          exact ih _ (Or.inr (failOne_arms s k _ hw hc hk)) hk' (Or.inl (failOne_arms s k _ hw hc hk))
+          exact ih _ (Or.inr (failOne_arms c hb s k _ hw hc hk)) hk' (Or.inl (failOne_arms c hb s k _ hw hc hk))
         · refine ih _ ?_ hk' (Or.inr ⟨p, hin, by rw [failOne_critLeafAt]; exact hc⟩)
           exact w2 hw
     · -- armed already
-      have : (failOne k s q r).w = .armed := by rw [w1 (by simp [hw])]; exact hw
+      have : (failOne c k s q r).w = .armed := by rw [w1 (by simp [hw])]; exact hw
       exact ih _ (Or.inr this) hk' (Or.inl this)
 
-/-! ## C03: critical ⇒ ERROR -/
+/-! ## C03: critical ⇒ ERROR, the code as it was (unbuffered channel) -/
 
-/-- FULL-STRENGTH statement (kept visible; FALSE of the code, see the `C03_finding_*`
-    theorems): whatever the kind of failure and wherever the watcher goroutine is, once a
-    critical task of a live environment has failed (alone or with the other tasks of its
-    executor / agent) and nothing more can happen, the environment is in ERROR. -/
-def C03_critical_to_error_full : Prop :=
-  ∀ (s : Sys) (k : Kind) (vs : List (List Nat × Bool)) (ls : List Label),
-    Live s → (∃ p r, (p, r) ∈ vs ∧ critLeafAt s.f p = true) →
-    validRun (fail k s vs) ls = true → quiescent (irun (fail k s vs) ls) = true →
-    (irun (fail k s vs) ls).env.st = .ERROR
-
-/-- What IS proved — for every role tree, every live state, every set of tasks dying
-    together of which at least one is critical, every kind of failure that the code turns
-    into task state ERROR at that instant (`Kind.drives`: TASK_FAILED/LOST/KILLED/ERROR,
-    executor lost, agent lost; an announced internal error only while RUNNING), idle or with
-    any transition in flight, every hook set, every order of the enabled internal steps and
-    every outcome of the in-flight / queued transitions — PROVIDED the watcher is at its
-    receive when the root notifies for (one of) the critical victim(s) (`(p, true) ∈ vs`):
-      (1) the watcher is armed and at most `budget` (≤ budget before + number of victims;
-          budget = 2 × replies still to arrive + 1 if a transition is in flight + queued task-state
-          updates + queued STOP requests + 2/1/0 for the watcher) internal steps can follow,
+/-- What WAS provable before the repair, and still is for every configuration with an
+    unbuffered channel (`legacyCfg`) — for every role tree, every live state, every set of
+    tasks dying together of which at least one is critical, every kind of failure that the
+    code turns into task state ERROR at that instant (`Kind.drives`), idle or with any
+    transition in flight, every hook set, every order of the enabled internal steps and every
+    outcome of the in-flight / queued transitions — PROVIDED the watcher is at its receive
+    when the root notifies for (one of) the critical victim(s) (`(p, true) ∈ vs`):
+      (1) the watcher is armed and at most `budget` internal steps can follow,
       (2) when none is enabled any more the environment is in ERROR,
-      (3) such a run exists (so (2) is not vacuous).
-    `C03_error_stable` adds that ERROR is then kept. -/
-theorem C03_critical_to_error_partial (s : Sys) (k : Kind) (vs : List (List Nat × Bool))
+      (3) such a run exists (so (2) is not vacuous). -/
+theorem C03_critical_to_error_partial (c : Cfg) (hb : c.buffered = false) (s : Sys) (k : Kind)
+    (vs : List (List Nat × Bool))
     (hlive : Live s) (hk : k.drives s.env.st = true)
     (hcrit : ∃ p, (p, true) ∈ vs ∧ critLeafAt s.f p = true) :
-    let s1 := fail k s vs
-    s1.w = .armed ∧ budget s1 ≤ budget s + vs.length ∧
-    (∀ ls, validRun s1 ls = true → ls.length ≤ budget s1 ∧
-      (quiescent (irun s1 ls) = true → (irun s1 ls).env.st = .ERROR)) ∧
-    (∃ ls, validRun s1 ls = true ∧ quiescent (irun s1 ls) = true) := by
+    let s1 := fail c k s vs
+    s1.w = .armed ∧ budget s1 ≤ budget s + 3 * vs.length + 2 ∧
+    (∀ ls, validRun c s1 ls = true → ls.length ≤ budget s1 ∧
+      (quiescent (irun c s1 ls) = true → (irun c s1 ls).env.st = .ERROR)) ∧
+    (∃ ls, validRun c s1 ls = true ∧ quiescent (irun c s1 ls) = true) := by
   obtain ⟨_, hw, hnr⟩ := hlive
-  have harm := fail_arms k s vs (Or.inl hw) hk (Or.inr hcrit)
-  obtain ⟨_, fi, _, fs, fu⟩ := fail_frame k s vs
-  have hinv : ErrInv (fail k s vs) := ⟨Or.inl harm, fun i hi => by rw [fi] at hi; exact hnr i hi⟩
-  refine ⟨harm, ?_, ?_, exists_maximal_run _ _ (Nat.le_refl _)⟩
-  · unfold budget
-    rw [fi, fu, harm, hw]
-    simp only [Watch.weight]
-    split <;> omega
-  · intro ls hv
-    refine ⟨?_, fun hq => quiescent_inv_error _ (run_inv _ ls hinv hv) hq⟩
-    have := run_length _ ls hv
-    omega
+  have harm := fail_arms c hb k s vs (Or.inl hw) hk (Or.inr hcrit)
+  obtain ⟨_, fi, _, _, _, _⟩ := fail_frame c k s vs
+  have hinv : ErrInv (fail c k s vs) := ⟨Or.inl harm, fun i hi => by rw [fi] at hi; exact hnr i hi⟩
+  refine ⟨harm, fail_budget c k s vs, ?_, exists_maximal_run c _ _ (Nat.le_refl _)⟩
+  intro ls hv
+  refine ⟨?_, fun hq => quiescent_inv_error _ (run_inv c _ ls hinv hv) hq⟩
+  have := run_length c _ ls hv
+  omega
 
 /-- The single-victim reading. -/
-theorem C03_critical_to_error (s : Sys) (k : Kind) (p : List Nat) (ls : List Label)
+theorem C03_critical_to_error (c : Cfg) (hb : c.buffered = false) (s : Sys) (k : Kind) (p : List Nat) (ls : List Label)
     (hlive : Live s) (hcrit : critLeafAt s.f p = true) (hk : k.drives s.env.st = true)
-    (hv : validRun (failOne k s p true) ls = true) (hq : quiescent (irun (failOne k s p true) ls) = true) :
-    (irun (failOne k s p true) ls).env.st = .ERROR ∧ ls.length ≤ budget s + 1 := by
-  obtain ⟨_, hb, h, _⟩ := C03_critical_to_error_partial s k [(p, true)] hlive hk ⟨p, List.mem_singleton.mpr rfl, hcrit⟩
-  simp only [fail, List.length_singleton] at hb h
+    (hv : validRun c (failOne c k s p true) ls = true) (hq : quiescent (irun c (failOne c k s p true) ls) = true) :
+    (irun c (failOne c k s p true) ls).env.st = .ERROR ∧ ls.length ≤ budget s + 5 := by
+  obtain ⟨_, hbud, h, _⟩ := C03_critical_to_error_partial c hb s k [(p, true)] hlive hk ⟨p, List.mem_singleton.mpr rfl, hcrit⟩
+  simp only [fail, List.length_singleton] at hbud h
   obtain ⟨h1, h2⟩ := h ls hv
   exact ⟨h2 hq, by omega⟩
 
+/-! ## C03: critical ⇒ ERROR, the code as it is (buffer of one + re-read of the root) -/
+
+/-- An ERROR is on its way to the watcher: waiting in its channel, or in its hands; or
+    (`R`: the root keeps saying ERROR) anything at all is, because the watcher re-reads the
+    root before acting. -/
+def Pend (R : Bool) (s : Sys) : Prop :=
+  (s.w = .parked ∧ s.chan = some .ERROR) ∨ s.w = .holding .ERROR ∨
+  (R = true ∧ ((s.w = .parked ∧ s.chan.isSome = true) ∨ ∃ v, s.w = .holding v))
+
+theorem Pend.keeps {R : Bool} {s s' : Sys} (h : Pend R s) (hk : Keeps s s') : Pend R s' := by
+  obtain ⟨hw, hc⟩ := hk
+  rcases h with ⟨h1, h2⟩ | h | ⟨hR, ⟨h1, h2⟩ | ⟨v, h1⟩⟩
+  · exact Or.inl ⟨hw.trans h1, (hc (by rw [h2]; rfl)).trans h2⟩
+  · exact Or.inr (Or.inl (hw.trans h))
+  · exact Or.inr (Or.inr ⟨hR, Or.inl ⟨hw.trans h1, by rw [hc h2]; exact h2⟩⟩)
+  · exact Or.inr (Or.inr ⟨hR, Or.inr ⟨v, hw.trans h1⟩⟩)
+
+def BufInv (R : Bool) (s : Sys) : Prop := (s.w = .armed ∨ s.env.st = .ERROR ∨ Pend R s) ∧ NoRecover s
+
+/-- Buffered channel: the steps that are not the watcher's own (and not its timer) neither
+    move the watcher nor replace what waits in its channel. -/
+theorem istep_keeps (c : Cfg) (hb : c.buffered = true) (s : Sys) (l : Label)
+    (h1 : l ≠ .take) (h2 : l ≠ .look) (h3 : l ≠ .timer) : Keeps s (istep c s l) := by
+  cases l with
+  | arrive =>
+    simp only [istep]
+    repeat' split
+    all_goals exact ⟨rfl, fun _ => rfl⟩
+  | apply k ready =>
+    simp only [istep]
+    split
+    · exact setLeaf_keeps c _ _ _ ready hb
+    · exact Keeps.refl s
+  | finish =>
+    simp only [istep]
+    split
+    · exact ⟨rfl, fun _ => rfl⟩
+    · exact Keeps.refl s
+  | devStop ok ready => exact devStopStep_keeps c s ok ready hb
+  | timer => exact absurd rfl h3
+  | take => exact absurd rfl h1
+  | look => exact absurd rfl h2
+
+theorem step_inv_buf (c : Cfg) (hb : c.buffered = true) (hr : c.reread = true) (R : Bool) (s : Sys) (l : Label)
+    (h : BufInv R s) (he : enabled s l = true)
+    (hroot : R = true → s.w.inLoop = true → rootState s.f = .ERROR) : BufInv R (istep c s l) := by
+  obtain ⟨hw, hnr⟩ := h
+  rcases hw with hw | hw | hp
+  · obtain ⟨g1, g2⟩ := step_inv c s l ⟨Or.inl hw, hnr⟩ he
+    exact ⟨g1.elim Or.inl (fun x => Or.inr (Or.inl x)), g2⟩
+  · obtain ⟨g1, g2⟩ := step_inv c s l ⟨Or.inr hw, hnr⟩ he
+    exact ⟨g1.elim Or.inl (fun x => Or.inr (Or.inl x)), g2⟩
+  refine ⟨?_, step_norecover c s l hnr⟩
+  cases l with
+  | arrive => exact Or.inr (Or.inr (hp.keeps (istep_keeps c hb s _ (by simp) (by simp) (by simp))))
+  | apply k ready => exact Or.inr (Or.inr (hp.keeps (istep_keeps c hb s _ (by simp) (by simp) (by simp))))
+  | finish => exact Or.inr (Or.inr (hp.keeps (istep_keeps c hb s _ (by simp) (by simp) (by simp))))
+  | devStop ok ready => exact Or.inr (Or.inr (hp.keeps (istep_keeps c hb s _ (by simp) (by simp) (by simp))))
+  | timer => exact Or.inr (Or.inl (timerStep_spec c s).1)
+  | take =>
+    simp only [enabled, Bool.and_eq_true, decide_eq_true_eq] at he
+    obtain ⟨ew, ec⟩ := he
+    right; right
+    rcases hp with ⟨_, h2⟩ | h | ⟨hR, ⟨_, _⟩ | ⟨v, h1⟩⟩
+    · simp only [istep, ew, h2]
+      exact Or.inr (Or.inl rfl)
+    · rw [ew] at h; cases h
+    · cases hch : s.chan with
+      | none => simp [hch] at ec
+      | some v =>
+        simp only [istep, ew, hch]
+        exact Or.inr (Or.inr ⟨hR, Or.inr ⟨v, rfl⟩⟩)
+    · rw [ew] at h1; cases h1
+  | look =>
+    left
+    rcases hp with ⟨h1, _⟩ | h | ⟨hR, ⟨h1, _⟩ | ⟨v, h1⟩⟩
+    · simp [enabled, h1] at he
+    · simp only [istep, h]
+      exact react_error c s
+    · simp [enabled, h1] at he
+    · simp only [istep, h1]
+      exact react_reread c s v hr (hroot hR (by rw [h1]; rfl))
+
+/-- As long as the watcher is in its loop the root role says ERROR — at every state of the run. -/
+def rootHolds (c : Cfg) : Sys → List Label → Bool
+  | s, [] => !s.w.inLoop || rootState s.f == .ERROR
+  | s, l :: ls => (!s.w.inLoop || rootState s.f == .ERROR) && rootHolds c (istep c s l) ls
+
+theorem run_inv_buf (c : Cfg) (hb : c.buffered = true) (hr : c.reread = true) (R : Bool) (s : Sys) (ls : List Label)
+    (h : BufInv R s) (hv : validRun c s ls = true) (hroot : R = true → rootHolds c s ls = true) :
+    BufInv R (irun c s ls) := by
+  induction ls generalizing s with
+  | nil => exact h
+  | cons l ls ih =>
+    simp only [validRun, Bool.and_eq_true] at hv
+    have hnow : R = true → s.w.inLoop = true → rootState s.f = .ERROR := by
+      intro hR hin
+      have := hroot hR
+      simp only [rootHolds, Bool.and_eq_true, Bool.or_eq_true, Bool.not_eq_true', hin, beq_iff_eq] at this
+      rcases this.1 with h | h
+      · cases h
+      · exact h
+    refine ih (istep c s l) (step_inv_buf c hb hr R s l h hv.1 hnow) hv.2 ?_
+    intro hR
+    have := hroot hR
+    simp only [rootHolds, Bool.and_eq_true] at this
+    exact this.2
+
+theorem quiescent_bufinv_error (R : Bool) (s : Sys) (h : BufInv R s) (hq : quiescent s = true) : s.env.st = .ERROR := by
+  obtain ⟨hw, hnr⟩ := h
+  rcases hw with hw | hw | hp
+  · exact quiescent_inv_error s ⟨Or.inl hw, hnr⟩ hq
+  · exact hw
+  · exfalso
+    simp only [quiescent, enabled, Bool.and_eq_true, Bool.not_eq_true'] at hq
+    obtain ⟨⟨_, q6⟩, q7⟩ := hq
+    rcases hp with ⟨h1, h2⟩ | h | ⟨_, ⟨h1, h2⟩ | ⟨v, h1⟩⟩
+    · simp [h1, h2] at q6
+    · simp [h] at q7
+    · simp [h1, h2] at q6
+    · simp [h1] at q7
+
+theorem fail_keeps (c : Cfg) (hb : c.buffered = true) (k : Kind) (s : Sys) (vs : List (List Nat × Bool)) :
+    Keeps s (fail c k s vs) := by
+  induction vs generalizing s with
+  | nil => exact Keeps.refl s
+  | cons v vs ih =>
+    obtain ⟨q, r⟩ := v
+    simp only [fail]
+    exact (failOne_keeps c k s q r hb).trans (ih _)
+
+/-- Buffered channel: one failure hitting any number of tasks, ONE of them critical, leaves an
+    ERROR in the watcher's channel if that was empty — whatever the `ready` bits. -/
+theorem fail_kept (c : Cfg) (hb : c.buffered = true) (k : Kind) (s : Sys) (vs : List (List Nat × Bool))
+    (hw : s.w = .parked) (hk : k.drives s.env.st = true)
+    (h : s.chan = some .ERROR ∨ (s.chan = none ∧ ∃ p r, (p, r) ∈ vs ∧ critLeafAt s.f p = true)) :
+    (fail c k s vs).chan = some .ERROR := by
+  induction vs generalizing s with
+  | nil =>
+    rcases h with h | ⟨_, p, r, hp, _⟩
+    · exact h
+    · cases hp
+  | cons v vs ih =>
+    obtain ⟨q, r⟩ := v
+    simp only [fail]
+    have henv : (failOne c k s q r).env = s.env := (failOne_frame c k s q r).1
+    have hk' : k.drives (failOne c k s q r).env.st = true := by rw [henv]; exact hk
+    obtain ⟨kw, kc⟩ := failOne_keeps c k s q r hb
+    have hw' : (failOne c k s q r).w = .parked := kw.trans hw
+    rcases h with h | ⟨hn, p, r', hp, hc⟩
+    · exact ih _ hw' hk' (Or.inl ((kc (by rw [h]; rfl)).trans h))
+    · rcases List.mem_cons.mp hp with heq | hin
+      · cases heq
+        exact ih _ hw' hk' (Or.inl (failOne_kept c k s _ _ hb hk (by rw [hw]; rfl) hn hc))
+      · rcases failOne_chan c k s q r hb hk with e | e
+        · exact ih _ hw' hk' (Or.inr ⟨e.trans hn, p, r', hin, by rw [failOne_critLeafAt]; exact hc⟩)
+        · exact ih _ hw' hk' (Or.inl e)
+
+/-- FULL-STRENGTH statement about the way from the root role to the environment — no premise
+    about where the watcher goroutine is: for every live system (whatever is waiting in the
+    watcher's channel), every kind of failure the code turns into task state ERROR at that
+    instant, every set of tasks dying together of which at least one is critical, EVERY
+    `ready` bit, every valid run of internal steps — in which, if a stale value was still
+    waiting in the watcher's channel when the task failed, the root role goes on saying ERROR
+    while the watcher is in its loop (a statement about the ROLE TREE, not about the watcher:
+    it fails only when a late command reply of the dead task overwrites its ERROR, the
+    unordered `go updateTaskState` goroutines of C11 / C02) — once nothing more can happen the
+    environment is in ERROR.
+    FALSE for the code as it was (`C03_finding_notify_dropped`), TRUE for the code as it is
+    (`C03_critical_to_error_code`). -/
+def C03_critical_to_error_full (c : Cfg) : Prop :=
+  ∀ (s : Sys) (k : Kind) (vs : List (List Nat × Bool)) (ls : List Label),
+    Live s → k.drives s.env.st = true → (∃ p r, (p, r) ∈ vs ∧ critLeafAt s.f p = true) →
+    validRun c (fail c k s vs) ls = true →
+    (s.chan = none ∨ rootHolds c (fail c k s vs) ls = true) →
+    quiescent (irun c (fail c k s vs) ls) = true →
+    (irun c (fail c k s vs) ls).env.st = .ERROR
+
+/-- The same with the bounds, for every configuration that has the buffer and the re-read:
+    at most `budget` (≤ budget before + 3 per victim + 2) internal steps can follow the
+    failure; when none is enabled any more the environment is in ERROR; such a run exists. -/
+theorem C03_critical_to_error_buffered (c : Cfg) (hb : c.buffered = true) (hr : c.reread = true)
+    (s : Sys) (k : Kind) (vs : List (List Nat × Bool))
+    (hlive : Live s) (hk : k.drives s.env.st = true)
+    (hcrit : ∃ p r, (p, r) ∈ vs ∧ critLeafAt s.f p = true) :
+    let s1 := fail c k s vs
+    budget s1 ≤ budget s + 3 * vs.length + 2 ∧
+    (∀ ls, validRun c s1 ls = true → ls.length ≤ budget s1 ∧
+      ((s.chan = none ∨ rootHolds c s1 ls = true) → quiescent (irun c s1 ls) = true → (irun c s1 ls).env.st = .ERROR)) ∧
+    (∃ ls, validRun c s1 ls = true ∧ quiescent (irun c s1 ls) = true) := by
+  obtain ⟨_, hw, hnr⟩ := hlive
+  obtain ⟨_, fi, _, _, _, _⟩ := fail_frame c k s vs
+  obtain ⟨kw, kc⟩ := fail_keeps c hb k s vs
+  have hnr1 : NoRecover (fail c k s vs) := fun i hi => by rw [fi] at hi; exact hnr i hi
+  refine ⟨fail_budget c k s vs, ?_, exists_maximal_run c _ _ (Nat.le_refl _)⟩
+  intro ls hv
+  refine ⟨by have := run_length c _ ls hv; omega, ?_⟩
+  intro hprem hq
+  cases hch : s.chan with
+  | none =>
+    -- the ERROR itself is in the channel
+    have hkept := fail_kept c hb k s vs hw hk (Or.inr ⟨hch, hcrit⟩)
+    have hinv : BufInv false (fail c k s vs) := ⟨Or.inr (Or.inr (Or.inl ⟨kw.trans hw, hkept⟩)), hnr1⟩
+    exact quiescent_bufinv_error false _ (run_inv_buf c hb hr false _ ls hinv hv (fun h => by cases h)) hq
+  | some x =>
+    -- a stale value is: the watcher will take it and re-read the root
+    have hR : rootHolds c (fail c k s vs) ls = true := by
+      rcases hprem with h | h
+      · rw [hch] at h; cases h
+      · exact h
+    have hsome : (fail c k s vs).chan.isSome = true := by rw [kc (by rw [hch]; rfl), hch]; rfl
+    have hinv : BufInv true (fail c k s vs) := ⟨Or.inr (Or.inr (Or.inr (Or.inr ⟨rfl, Or.inl ⟨kw.trans hw, hsome⟩⟩))), hnr1⟩
+    exact quiescent_bufinv_error true _ (run_inv_buf c hb hr true _ ls hinv hv (fun _ => hR)) hq
+
+/-- **The full-strength statement holds for the code as it is.** -/
+theorem C03_critical_to_error_code : C03_critical_to_error_full codeCfg := by
+  intro s k vs ls hlive hk hcrit hv hprem hq
+  exact ((C03_critical_to_error_buffered codeCfg rfl rfl s k vs hlive hk hcrit).2.1 ls hv).2 hprem hq
+
 /-- ERROR is absorbing for the internal steps (nothing in flight is RECOVER). -/
-theorem C03_error_stable (s : Sys) (ls : List Label) (he : s.env.st = .ERROR) (hnr : NoRecover s)
-    (hv : validRun s ls = true) : (irun s ls).env.st = .ERROR := by
-  have hinv : ErrInv s := ⟨Or.inr he, hnr⟩
+theorem C03_error_stable (c : Cfg) (s : Sys) (ls : List Label) (he : s.env.st = .ERROR) (hnr : NoRecover s)
+    (hv : validRun c s ls = true) : (irun c s ls).env.st = .ERROR := by
+  have := run_inv c s ls ⟨Or.inr he, hnr⟩ hv
   induction ls generalizing s with
   | nil => exact he
   | cons l ls ih =>
     simp only [validRun, Bool.and_eq_true] at hv
-    have h1 := step_inv s l hinv hv.1
-    have hst : (istep s l).env.st = .ERROR := by
+    have h1 := step_inv c s l ⟨Or.inr he, hnr⟩ hv.1
+    have hst : (istep c s l).env.st = .ERROR := by
       cases l with
       | arrive =>
         cases hi : s.inflight with
@@ -411,7 +725,7 @@ theorem C03_error_stable (s : Sys) (ls : List Label) (he : s.env.st = .ERROR) (h
         | none => exact he
         | some pv =>
           simp only
-          rw [(setLeaf_frame _ _ _ _).1]; exact he
+          rw [(setLeaf_frame _ _ _ _ _).1]; exact he
       | finish =>
         cases hi : s.inflight with
         | none => simp [istep, hi, he]
@@ -422,86 +736,98 @@ theorem C03_error_stable (s : Sys) (ls : List Label) (he : s.env.st = .ERROR) (h
           · rw [try_from_error _ _ _ _ _ he (hnr i hi)]; exact he
       | devStop ok ready =>
         simp only [istep]
-        rw [(devStopStep_frame s ok ready).1, try_from_error _ _ _ _ _ he (by decide)]; exact he
-      | timer => exact (timerStep_spec s).1
-    simpa [irun] using ih (istep s l) hst h1.2 hv.2 ⟨Or.inr hst, h1.2⟩
+        rw [(devStopStep_frame c s ok ready).1, try_from_error _ _ _ _ _ he (by decide)]; exact he
+      | timer => exact (timerStep_spec c s).1
+      | take =>
+        simp only [istep]
+        split
+        · exact he
+        · exact he
+      | look =>
+        simp only [istep]
+        split
+        · rw [(react_frame c s _).1]; exact he
+        · exact he
+    simpa [irun] using ih (istep c s l) hst h1.2 hv.2 (run_inv c _ ls ⟨Or.inr hst, h1.2⟩ hv.2)
 
 /-! ## C03: non-critical ⇒ nothing -/
 
 /-- FULL-STRENGTH statement (FALSE of the code, see
     `C03_finding_internal_error_noncritical_stops_run`): the failure of a non-critical task
     of a quiet live environment never changes the environment's state. -/
-def C03_noncritical_inert_full : Prop :=
+def C03_noncritical_inert_full (c : Cfg) : Prop :=
   ∀ (s : Sys) (k : Kind) (p : List Nat) (ready : Bool) (ls : List Label),
     Live s → quiescent s = true → plainLeafAt s.f p = true →
-    validRun (failOne k s p ready) ls = true → (irun (failOne k s p ready) ls).env.st = s.env.st
+    validRun c (failOne c k s p ready) ls = true → (irun c (failOne c k s p ready) ls).env.st = s.env.st
 
-/-- What IS proved: for every kind that does not queue a STOP (`Kind.quiet`: all of them
-    except TASK_INTERNAL_ERROR while RUNNING) the failure of a non-critical task changes
-    NOTHING outside that task's own role: environment, watcher, mutex holder, queued
-    requests are untouched, no notification is sent, the fold of the critical leaves
-    (what C11 proves every aggregator reports) is unchanged, exactly the same internal
-    steps are enabled as before, and an idle environment stays idle — its state can never
-    change as a consequence. Any schedule, any watcher position. -/
-theorem C03_noncritical_inert_partial (s : Sys) (k : Kind) (p : List Nat) (ready : Bool)
+/-- What IS proved (every configuration): for every kind that does not queue a STOP
+    (`Kind.quiet`: all of them except TASK_INTERNAL_ERROR while RUNNING) the failure of a
+    non-critical task changes NOTHING outside that task's own role: environment, watcher, its
+    channel, mutex holder, queued requests are untouched, no notification is sent, the fold
+    of the critical leaves (what C11 proves every aggregator reports) is unchanged, exactly
+    the same internal steps are enabled as before, and an idle environment stays idle — its
+    state can never change as a consequence. Any schedule, any watcher position. -/
+theorem C03_noncritical_inert_partial (c : Cfg) (s : Sys) (k : Kind) (p : List Nat) (ready : Bool)
     (hplain : plainLeafAt s.f p = true) (hq : k.quiet s.env.st = true) :
-    let s1 := failOne k s p ready
-    s1.env = s.env ∧ s1.w = s.w ∧ s1.inflight = s.inflight ∧ s1.stopReq = s.stopReq ∧ s1.dropped = s.dropped ∧
-    S s1.f = S s.f ∧
+    let s1 := failOne c k s p ready
+    s1.env = s.env ∧ s1.w = s.w ∧ s1.chan = s.chan ∧ s1.inflight = s.inflight ∧ s1.stopReq = s.stopReq ∧
+    s1.dropped = s.dropped ∧ S s1.f = S s.f ∧
     (∀ l, enabled s1 l = enabled s l) ∧
-    (quiescent s = true → ∀ ls, validRun s1 ls = true → ls = [] ∧ (irun s1 ls).env.st = s.env.st) := by
+    (quiescent s = true → ∀ ls, validRun c s1 ls = true → ls = [] ∧ (irun c s1 ls).env.st = s.env.st) := by
   have hstop : (effect k s.env.st).stop = false := by simpa [Kind.quiet] using hq
-  obtain ⟨fe, fi, _, fs, fu⟩ := failOne_frame k s p ready
+  obtain ⟨fe, fi, _, fs, fu⟩ := failOne_frame c k s p ready
   rw [hstop] at fs
   simp only [Bool.false_eq_true, if_false, Nat.add_zero] at fs
   have hnone : ∀ st, (updState s.f p st).2 = none := fun st => updState_plain_none s.f p st hplain
-  have hwd : (failOne k s p ready).w = s.w ∧ (failOne k s p ready).dropped = s.dropped ∧ S (failOne k s p ready).f = S s.f := by
+  have hwd : (failOne c k s p ready).w = s.w ∧ (failOne c k s p ready).chan = s.chan ∧
+      (failOne c k s p ready).dropped = s.dropped ∧ S (failOne c k s p ready).f = S s.f := by
     unfold failOne
     simp only
     cases hst : (effect k s.env.st).st with
     | none =>
       simp only [notify_none]
       cases hsu : (effect k s.env.st).su with
-      | none => exact ⟨by first | rfl | trivial, by first | rfl | trivial, by first | rfl | trivial⟩
-      | some su => exact ⟨by first | rfl | trivial, by first | rfl | trivial, updStatus_S _ _ _⟩
+      | none => exact ⟨by first | rfl | trivial, by first | rfl | trivial, by first | rfl | trivial, by first | rfl | trivial⟩
+      | some su => exact ⟨by first | rfl | trivial, by first | rfl | trivial, by first | rfl | trivial, updStatus_S _ _ _⟩
     | some st =>
       simp only [hnone st, notify_none]
       have hS : S (updState s.f p st).1 = S s.f := (upd_top s.f p st).1 (hnone st)
       cases hsu : (effect k s.env.st).su with
-      | none => exact ⟨by first | rfl | trivial, by first | rfl | trivial, hS⟩
-      | some su => exact ⟨by first | rfl | trivial, by first | rfl | trivial, by rw [updStatus_S]; exact hS⟩
-  have hen : ∀ l, enabled (failOne k s p ready) l = enabled s l := by
+      | none => exact ⟨by first | rfl | trivial, by first | rfl | trivial, by first | rfl | trivial, hS⟩
+      | some su => exact ⟨by first | rfl | trivial, by first | rfl | trivial, by first | rfl | trivial, by rw [updStatus_S]; exact hS⟩
+  have hen : ∀ l, enabled (failOne c k s p ready) l = enabled s l := by
     intro l
-    cases l <;> simp only [enabled, fi, fs, fu, hwd.1]
-  refine ⟨fe, hwd.1, fi, fs, hwd.2.1, hwd.2.2, hen, ?_⟩
+    cases l <;> simp only [enabled, fi, fs, fu, hwd.1, hwd.2.1]
+  refine ⟨fe, hwd.1, hwd.2.1, fi, fs, hwd.2.2.1, hwd.2.2.2, hen, ?_⟩
   intro hqs ls hv
   cases ls with
   | nil => exact ⟨rfl, by simp [irun, fe]⟩
   | cons l ls =>
+    exfalso
     simp only [validRun, Bool.and_eq_true] at hv
     have h1 := hv.1
     rw [hen l] at h1
-    simp only [quiescent, Bool.and_eq_true, Bool.not_eq_true'] at hqs
-    obtain ⟨⟨⟨q1, q2⟩, q3⟩, q4⟩ := hqs
+    have hidle := quiescent_idle s hqs
+    simp only [quiescent, enabled, hidle, Bool.and_eq_true, Bool.not_eq_true'] at hqs
     cases l <;> simp_all [enabled]
 
-/-! ## C03: the end of the irun is recorded -/
+/-! ## C03: the end of the run is recorded -/
 
-/-- When the watcher's timer runs on a RUNNING environment whose end-of-irun stamps are
+/-- When the watcher's timer runs on a RUNNING environment whose end-of-run stamps are
     still open (as START_ACTIVITY leaves them) and no critical hook can veto GO_ERROR,
-    both stamps are set and both irun events (GO_ERROR STARTED at run_end_time_ms,
-    GO_ERROR DONE_OK at run_end_completion_time_ms) are emitted, carrying the irun number. -/
-theorem C03_run_end_recorded (s : Sys) (hst : s.env.st = .RUNNING)
+    both stamps are set and both run events (GO_ERROR STARTED at run_end_time_ms,
+    GO_ERROR DONE_OK at run_end_completion_time_ms) are emitted, carrying the run number. -/
+theorem C03_run_end_recorded (c : Cfg) (s : Sys) (hst : s.env.st = .RUNNING)
     (hh : s.hooks = []) (hp : s.env.pending = [])
     (h1 : s.env.vars.soeor = .empty) (h2 : s.env.vars.eoeor = .empty) :
-    let s1 := timerStep s
+    let s1 := timerStep c s
     s1.env.st = .ERROR ∧
     s1.env.vars.soeor = .val (s.env.clock + 1) ∧ s1.env.vars.eoeor = .val (s.env.clock + 2) ∧
     Step.runEvent "GO_ERROR" .started s.env.rn (s.env.clock + 1) ∈ s1.log ∧
     Step.runEvent "GO_ERROR" .doneOk s.env.rn (s.env.clock + 2) ∈ s1.log := by
   unfold timerStep
   simp only
-  rw [(setLeaves_frame _ _ _ _).1, (setLeaves_frame _ _ _ _).2.2.2.2.1]
+  rw [(setLeaves_frame _ _ _ _ _).1, (setLeaves_frame _ _ _ _ _).2.2.2.2.1]
   simp only [hh]
   have key : ∀ env : Env, env.st = .RUNNING → env.pending = [] → env.vars.soeor = .empty → env.vars.eoeor = .empty →
       let g := tryTransition env [] .GO_ERROR true false
@@ -531,48 +857,97 @@ def wConfigured : Sys :=
 theorem wRunning_live : Live wRunning := ⟨Or.inr rfl, rfl, fun i hi => by cases hi⟩
 theorem wConfigured_live : Live wConfigured := ⟨Or.inl rfl, rfl, fun i hi => by cases hi⟩
 
-/-- NEGATIVE lemma (the lossy notification): with the watcher away from its receive at
-    the instant the root notifies, the ERROR is dropped; nothing is enabled afterwards
-    and the environment keeps reporting RUNNING with its critical task dead, the root
-    role saying ERROR. -/
-theorem C03_finding_notify_dropped : ¬ C03_critical_to_error_full := by
+/-- NEGATIVE lemma about the code AS IT WAS (finding notify_dropped, fixed): on an unbuffered
+    channel, with the watcher away from its receive at the instant the root notifies, the
+    ERROR is dropped; nothing is enabled afterwards and the environment keeps reporting
+    RUNNING with its critical task dead, the root role saying ERROR. -/
+theorem C03_finding_notify_dropped : ¬ C03_critical_to_error_full legacyCfg := by
   intro h
-  have := h wRunning .FAILED [([0, 0], false)] [] wRunning_live ⟨[0, 0], false, by decide, by decide⟩ (by decide) (by decide)
+  have := h wRunning .FAILED [([0, 0], false)] [] wRunning_live (by decide) ⟨[0, 0], false, by decide, by decide⟩
+    (by decide) (Or.inl rfl) (by decide)
   revert this; decide
 
-/-- What exactly that schedule leaves behind. -/
+/-- What exactly that schedule left behind — and what the same schedule does now: the ERROR
+    waits in the channel, the watcher takes it, the timer runs, the environment is in ERROR. -/
 theorem C03_notify_dropped_witness :
-    let s1 := failOne .FAILED wRunning [0, 0] false
-    quiescent s1 = true ∧ s1.env.st = .RUNNING ∧ rootState s1.f = .ERROR ∧ s1.dropped = 1 ∧ s1.w = .parked := by
+    (let s1 := failOne legacyCfg .FAILED wRunning [0, 0] false
+     quiescent s1 = true ∧ s1.env.st = .RUNNING ∧ rootState s1.f = .ERROR ∧ s1.dropped = 1 ∧ s1.w = .parked) ∧
+    (let s1 := failOne codeCfg .FAILED wRunning [0, 0] false
+     s1.chan = some .ERROR ∧ s1.dropped = 0 ∧ validRun codeCfg s1 [.take, .look, .timer] = true ∧
+     quiescent (irun codeCfg s1 [.take, .look, .timer]) = true ∧ (irun codeCfg s1 [.take, .look, .timer]).env.st = .ERROR) := by
   decide
 
+/-- The text of the property for EVERY kind of failure (no `Kind.drives`): FALSE of the code as
+    it is, see the two findings below. -/
+def C03_every_kind_to_error_full (c : Cfg) : Prop :=
+  ∀ (s : Sys) (k : Kind) (vs : List (List Nat × Bool)) (ls : List Label),
+    Live s → (∃ p r, (p, r) ∈ vs ∧ critLeafAt s.f p = true) →
+    validRun c (fail c k s vs) ls = true → s.chan = none →
+    quiescent (irun c (fail c k s vs) ls) = true →
+    (irun c (fail c k s vs) ls).env.st = .ERROR
+
 /-- A critical task whose process ends with exit status 0 (TASK_FINISHED) becomes DONE,
-    not ERROR: the environment stays RUNNING. -/
-theorem C03_finding_finished_not_error : ¬ C03_critical_to_error_full := by
+    not ERROR: the watcher receives DONE and leaves, the environment stays RUNNING. -/
+theorem C03_finding_finished_not_error : ¬ C03_every_kind_to_error_full codeCfg := by
   intro h
-  have := h wRunning .FINISHED [([0, 0], true)] [] wRunning_live ⟨[0, 0], true, by decide, by decide⟩ (by decide) (by decide)
+  have := h wRunning .FINISHED [([0, 0], true)] [.take, .look] wRunning_live ⟨[0, 0], true, by decide, by decide⟩
+    (by decide) rfl (by decide)
   revert this; decide
 
 /-- TASK_INTERNAL_ERROR of a critical task while the environment is CONFIGURED is ignored. -/
-theorem C03_finding_internal_error_ignored_unless_running : ¬ C03_critical_to_error_full := by
+theorem C03_finding_internal_error_ignored_unless_running : ¬ C03_every_kind_to_error_full codeCfg := by
   intro h
-  have := h wConfigured .INTERNAL [([0, 0], true)] [] wConfigured_live ⟨[0, 0], true, by decide, by decide⟩ (by decide) (by decide)
+  have := h wConfigured .INTERNAL [([0, 0], true)] [] wConfigured_live ⟨[0, 0], true, by decide, by decide⟩
+    (by decide) rfl (by decide)
   revert this; decide
 
-/-- TASK_INTERNAL_ERROR of a NON-critical task while RUNNING stops the irun
+/-- TASK_INTERNAL_ERROR of a NON-critical task while RUNNING stops the run
     (STOP_ACTIVITY is requested whatever the task's criticality). -/
-theorem C03_finding_internal_error_noncritical_stops_run : ¬ C03_noncritical_inert_full := by
+theorem C03_finding_internal_error_noncritical_stops_run : ¬ C03_noncritical_inert_full codeCfg := by
   intro h
   have := h wRunning .INTERNAL [0, 1] true [.devStop true true] wRunning_live (by decide) (by decide) (by decide)
   revert this; decide
 
-/-- Non-vacuity of the partial theorems on a realistic system: a critical task FAILS while
-    STOP_ACTIVITY is in flight with one reply outstanding; the wall-clock schedule
-    (`settle`) ends in ERROR with both stamps set. -/
+/-- LIMIT of `C03_critical_to_error_code`, machine-checked: its premise about the role tree
+    cannot be dropped. START_ACTIVITY has ended, the critical task's own reply is still a
+    queued `go updateTaskState(RUNNING)`, an older value is still waiting in the watcher's
+    channel; the task FAILS (root ERROR, notification dropped: buffer full), then its stale
+    reply is applied (leaf RUNNING, root RUNNING again — the unordered goroutines of C11 / C02),
+    only then the watcher wakes up: it takes the old value, re-reads a root that no longer
+    says ERROR, and stays in its loop. The environment keeps RUNNING. (Not reproduced on the
+    real core: it needs the watcher goroutine to sleep through two notifications.) -/
+theorem C03_limit_error_overwritten_while_channel_full :
+    let s : Sys := { wRunning with chan := some .RUNNING, updq := [([0, 0], .RUNNING)] }
+    let s1 := failOne codeCfg .FAILED s [0, 0] true
+    let ls : List Label := [.apply 0 true, .take, .look]
+    Live s ∧ critLeafAt s.f [0, 0] = true ∧ Kind.FAILED.drives s.env.st = true ∧
+    rootState s1.f = .ERROR ∧ s1.dropped = 1 ∧
+    validRun codeCfg s1 ls = true ∧ quiescent (irun codeCfg s1 ls) = true ∧ (irun codeCfg s1 ls).env.st = .RUNNING ∧
+    rootState (irun codeCfg s1 ls).f = .RUNNING ∧ rootHolds codeCfg s1 ls = false := by
+  refine ⟨⟨Or.inr rfl, rfl, fun i hi => by cases hi⟩, ?_⟩
+  decide
+
+/-- Non-vacuity of the theorems on realistic systems: a critical task FAILS while
+    STOP_ACTIVITY is in flight with one reply outstanding; the wall-clock schedule (`settle`)
+    ends in ERROR with both stamps set — on the unbuffered channel with the watcher at its
+    receive, and on the buffered one wherever the watcher is; and with a stale value waiting
+    in the channel the ERROR notification is dropped, yet the re-read of the root arms the
+    watcher (premise `rootHolds` satisfied). -/
 example :
     let s : Sys := { wRunning with inflight := some { ev := .STOP_ACTIVITY, api := true, pending := [([0, 1], .CONFIGURED)], ok := true } }
-    let s1 := settle 10 (failOne .FAILED s [0, 0] true)
+    let s1 := settle legacyCfg 10 (failOne legacyCfg .FAILED s [0, 0] true)
+    let s2 := settle codeCfg 12 (failOne codeCfg .FAILED s [0, 0] false)
     Live s ∧ critLeafAt s.f [0, 0] = true ∧ Kind.FAILED.drives s.env.st = true ∧
-    quiescent s1 = true ∧ s1.env.st = .ERROR ∧ s1.env.vars.soeor ≠ .empty ∧ s1.env.vars.eoeor ≠ .empty := by
+    quiescent s1 = true ∧ s1.env.st = .ERROR ∧ s1.env.vars.soeor ≠ .empty ∧ s1.env.vars.eoeor ≠ .empty ∧
+    quiescent s2 = true ∧ s2.env.st = .ERROR ∧ s2.env.vars.soeor ≠ .empty ∧ s2.env.vars.eoeor ≠ .empty := by
   refine ⟨⟨Or.inr rfl, rfl, fun i hi => by cases hi; decide⟩, ?_⟩
+  decide
+
+example :
+    let s : Sys := { wRunning with chan := some .RUNNING }
+    let s1 := failOne codeCfg .FAILED s [0, 0] true
+    let ls : List Label := [.take, .look, .timer]
+    Live s ∧ s1.dropped = 1 ∧ s1.chan = some .RUNNING ∧ validRun codeCfg s1 ls = true ∧ rootHolds codeCfg s1 ls = true ∧
+    quiescent (irun codeCfg s1 ls) = true ∧ (irun codeCfg s1 ls).env.st = .ERROR := by
+  refine ⟨⟨Or.inr rfl, rfl, fun i hi => by cases hi⟩, ?_⟩
   decide
